@@ -12,6 +12,9 @@ sys.path.insert(0, os.path.dirname(os.path.dirname(os.path.abspath(__file__))))
 from vf import common as C  # noqa: E402
 
 MODULES = {
+    "C01": "vf.c01",
+    "C03": "vf.c03",
+    "C04": "vf.c04",
     "C07": "vf.c07",
 }
 
